@@ -21,6 +21,13 @@ def make(kind, n):
 
 def observe(kind, impl, ref):
     """(field, detail) list for one state."""
+    try:
+        return _observe(kind, impl, ref)
+    except Exception as e:  # noqa
+        return [("exception", f"{type(e).__name__}: {e}")]
+
+
+def _observe(kind, impl, ref):
     bad = []
     v = impl.get_next_to_replace()
     if v != ref.victim():
@@ -55,21 +62,27 @@ def policy_space(shard):
             for i in range(n):
                 im2 = copy.deepcopy(impl)
                 rf2 = ref.copy()
-                im2.access(i)
-                rf2.access(i)
+                h2 = hist + (i,)
                 p.transitions += 1
                 p.evaluations += 1
                 p.traces += 1
-                h2 = hist + (i,)
-                bad = observe(kind, im2, rf2)
-                # idempotence: a second access to the same block leaves the state unchanged
-                im3 = copy.deepcopy(im2)
-                im3.access(i)
-                if canon(im3) != canon(im2) or im3.get_next_to_replace() != im2.get_next_to_replace() or list(im3.get_repr()) != list(im2.get_repr()):
-                    bad.append(("idempotence", f"access({i}) twice differs from access({i}) once"))
+                rf2.access(i)
+                try:
+                    im2.access(i)
+                    bad = observe(kind, im2, rf2)
+                    # idempotence: a second access to the same block leaves the state unchanged
+                    im3 = copy.deepcopy(im2)
+                    im3.access(i)
+                    if canon(im3) != canon(im2) or im3.get_next_to_replace() != im2.get_next_to_replace() or list(im3.get_repr()) != list(im2.get_repr()):
+                        bad.append(("idempotence", f"access({i}) twice differs from access({i}) once"))
+                except Exception as e:  # noqa
+                    bad = [("exception", f"access({i}) raised {type(e).__name__}: {e}")]
+                    im2 = None
                 for f, d in bad:
                     p.violation(dict(oracle="policy", policy=kind, field=f), dict(kind="policy", policy=kind, n=n, hist=list(h2)),
                                 f"{kind}({n}) after accesses {list(h2)}: {d}", size=(len(h2), h2))
+                if im2 is None:
+                    continue
                 k = (canon(im2), rf2.key())
                 if k not in seen:
                     seen[k] = h2
@@ -89,7 +102,10 @@ def replay(case):
     if case["kind"] == "cache-history":
         return cachebfs.replay(case)
     kind, n, hist = case["policy"], case["n"], case["hist"]
-    impl, ref = replay_hist(kind, n, hist)
+    try:
+        impl, ref = replay_hist(kind, n, hist)
+    except Exception as e:  # noqa
+        return [(dict(oracle="policy", policy=kind, field="exception"), f"{kind}({n}) after {hist}: {type(e).__name__}: {e}")]
     bad = observe(kind, impl, ref)
     if hist:
         im3 = copy.deepcopy(impl)
